@@ -676,7 +676,10 @@ class Interp:
             raise Unsupported("with on a non-file object")
         if item.optional_vars is not None:
             self.assign(item.optional_vars, cm, env, fr, ctx)
-        self.block(st.body, env, fr, ctx)
+        try:
+            self.block(st.body, env, fr, ctx)
+        finally:
+            cm.state["closed"] = True       # a file's __exit__ closes it on every way out of the block
 
     def st_Match(self, st, env, fr, ctx):
         """match with value patterns (dotted names / literals), None/True/False, or-patterns, the wildcard and a bare capture;
